@@ -13,7 +13,7 @@ macro "inv_ev_A" : tactic => `(tactic| (
   all_goals (try simp only [beq_iff_eq, Bool.or_eq_true] at *)
   all_goals (first | exact h | (
     obtain ⟨h1, h2, h3, h4, h5, h6, h7, h8, h9, h10, h11⟩ := h
-    constructor <;> (try simp only [upd'_apply, upd_apply, setFlavTid_phase, setFlavTid_guard, setFlavTid_pay, setFlavTid_fl, setFlavTid_starts, setFlavTid_tid, setFlavTid_latch, setFlavTid_rtask, setFlavTid_gather, setFlavTid_stopReq, setFlavTid_flushed, setFlavTid_execs, setFlavTid_failedQuiet, setFlavTid_pids]) <;> grind [step.upd', upd, St.quiet, St.closing, Out.failing, Out.loopKiller, St.setFlavTid, St.tidOK, St.coBusy, Flav.isCo, Phase.restartable, Latch.isFailed]))))
+    constructor <;> (try simp only [upd'_apply, upd_apply, setFlavTid_phase, setFlavTid_guard, setFlavTid_pay, setFlavTid_fl, setFlavTid_starts, setFlavTid_tid, setFlavTid_latch, setFlavTid_rtask, setFlavTid_gather, setFlavTid_stopReq, setFlavTid_flushed, setFlavTid_execs, setFlavTid_failedQuiet, setFlavTid_holder, setFlavTid_pids]) <;> grind [step.upd', upd, St.quiet, St.closing, Out.failing, Out.loopKiller, St.setFlavTid, St.tidOK, St.coBusy, Flav.isCo, Phase.restartable, Latch.isFailed]))))
 
 theorem InvA_acceptBegin (s s' : St) (r : Nat) (h : InvA s) (hs : step s (.acceptBegin r) = some s') : InvA s' := by
   inv_ev_A
@@ -135,6 +135,12 @@ theorem InvA_gatherDone (s s' : St)  (h : InvA s) (hs : step s .gatherDone = som
 theorem InvA_discard (s s' : St) (p : Nat) (h : InvA s) (hs : step s (.discard p) = some s') : InvA s' := by
   inv_ev_A
 
+theorem InvA_hold (s s' : St) (p h' : Nat) (h : InvA s) (hs : step s (.hold p h') = some s') : InvA s' := by
+  inv_ev_A
+
+theorem InvA_dropUnit (s s' : St) (p : Nat) (h : InvA s) (hs : step s (.dropUnit p) = some s') : InvA s' := by
+  inv_ev_A
+
 theorem InvA_step (s s' : St) (e : Ev) (h : InvA s) (hs : step s e = some s') : InvA s' := by
   cases e with
   | acceptBegin r => exact InvA_acceptBegin s s' r h hs
@@ -158,5 +164,7 @@ theorem InvA_step (s s' : St) (e : Ev) (h : InvA s) (hs : step s e = some s') : 
   | gatherRaise f => exact InvA_gatherRaise s s' f h hs
   | gatherDone  => exact InvA_gatherDone s s'  h hs
   | discard p => exact InvA_discard s s' p h hs
+  | hold p h' => exact InvA_hold s s' p h' h hs
+  | dropUnit p => exact InvA_dropUnit s s' p h hs
 
 end Cobald.Runtime
